@@ -452,6 +452,36 @@ def disjoint_spec(draw, nk="int", degrees=(1,), center=(0.0, 0.0), R=None, bound
     return spec
 
 
+@st.composite
+def nested_rings_spec(draw, nk="int", degrees=(1,), levels=4, center=(0.0, 0.0), bounded=True):
+    """`levels` strictly nested curves of alternating orientation about one
+    centre (ring in ring in ring ...): a DisjointShape of ConnectedShape
+    rings, the innermost member simple when the number of curves is odd; the
+    unbounded variant starts with a clockwise curve (the plane minus a disc)
+    and puts the rings on the island inside it"""
+    R = base_radius(nk) * 2.0 ** max(0, levels - 3)
+    snap = draw(snapper(nk))
+    curves = []
+    rhi = R
+    for lev in range(levels):
+        cw = (lev % 2 == 1) if bounded else (lev % 2 == 0)
+        curves.append(draw(star_curve(nk, center, 0.8 * rhi, rhi, (3, 5), degrees, cw, snap, container=True)))
+        rhi = 0.62 * 0.8 * rhi
+    parts = []
+    rest = curves
+    if not bounded:
+        parts.append({"k": "simple", "curve": curves[0]})
+        rest = curves[1:]
+    for i in range(0, len(rest), 2):
+        if i + 1 < len(rest):
+            parts.append({"k": "connected", "curves": [rest[i], rest[i + 1]]})
+        else:
+            parts.append({"k": "simple", "curve": rest[i]})
+    spec = {"k": "disjoint", "parts": parts} if len(parts) > 1 else parts[0]
+    assume(_valid(spec))
+    return spec
+
+
 KINDS = ["empty", "whole", "simple+", "simple-", "connected+", "connected-", "disjoint+", "disjoint-"]
 
 
